@@ -132,7 +132,9 @@ void DecodingTableBuilder::insertDecodeableSubstr(
 
     if ((substr->size() > 0) && (tableSubstr[index].dbits <= 1)) {
       // This substring has not been previously indexed
-      if ((*ptr == TABLEBITSO) && (bits <= TABLEBITSO)) {
+      // (an entry of the table describes, at most, 15 symbols)
+      if ((*ptr == TABLEBITSO) && (bits <= TABLEBITSO) &&
+          (substr->size() < 15)) {
         // The encoded symbol is fully represented in
         // the current chunk
         substr->push_back(symbol);
@@ -191,10 +193,11 @@ void DecodingTableBuilder::insertDecodeableSubstr(
         substr->clear();
         lenSubstr->clear();
       } else {
+        bool included = (substr->size() < 15);
         substr->clear();
         lenSubstr->clear();
 
-        if ((*ptr == TABLEBITSO) && (bits <= TABLEBITSO))
+        if ((*ptr == TABLEBITSO) && (bits <= TABLEBITSO) && included)
           *ptr = 0;
         else {
           *ptr = bits;
